@@ -1,0 +1,14 @@
+//go:build verif
+
+package casket
+
+// VerifServersC12 returns the servers of a started instance so that a verification
+// harness can observe them (e.g. count header commits below the server's handler).
+// Test-only export: compiled with -tags verif only; no behaviour change.
+func VerifServersC12(i *Instance) []Server {
+	out := make([]Server, 0, len(i.servers))
+	for _, sl := range i.servers {
+		out = append(out, sl.server)
+	}
+	return out
+}
